@@ -374,6 +374,17 @@ func TestApprovalMatrix(t *testing.T) {
 			}
 		}
 		perm := rapid.Permutation(order).Draw(t, "order")
+		// a writing peer may announce the entity its writes come from once more (detailed discovery
+		// notification, lastStateChange "added", the same features) while the writes are pending: the
+		// stack replaces its objects for that entity's features; the pending writes are not affected
+		reannounce := make([]bool, 2)
+		for pi := range reannounce {
+			writes := false
+			for _, w := range ws {
+				writes = writes || w.peer == pi
+			}
+			reannounce[pi] = rapid.IntRange(0, 3).Draw(t, fmt.Sprintf("peer%dAnnouncesItsEntityAgainWhilePending", pi)) == 0 && writes
+		}
 		for _, w := range ws {
 			for c := 0; c < nCb; c++ {
 				if blocking[c] {
@@ -422,6 +433,31 @@ func TestApprovalMatrix(t *testing.T) {
 			e.mu.Unlock()
 			world.Fail(t, "C12/callback-not-invoked", "%d approval callback invocations for %d writes x %d callbacks (callbacks whose invocation lasts until the verdict is given: %v)%s", n, nW, nCb, blocking, describe(ws))
 		}
+		announced := ""
+		if reannounce[0] || reannounce[1] {
+			announced = fmt.Sprintf("\n peers that announced entity [1] again (added, same features) after their writes had arrived and before the verdicts: %v", reannounce)
+		}
+		replaced := 0
+		for pi, again := range reannounce {
+			if !again {
+				continue
+			}
+			p := e.peers[pi]
+			before := p.Feature([]uint{1}, 1)
+			var ent []world.EntSpec
+			for _, es := range p.Ents {
+				if len(es.Addr) == 1 && es.Addr[0] == 1 {
+					ent = append(ent, es)
+				}
+			}
+			added := model.NetworkManagementStateChangeTypeAdded
+			cmd := model.CmdType{Function: util.Ptr(model.FunctionTypeNodeManagementDetailedDiscoveryData), Filter: []model.FilterType{*model.NewFilterTypePartial()},
+				NodeManagementDetailedDiscoveryData: p.DiscoveryData(ent, &added)}
+			p.Send(p.Msg(model.CmdClassifierTypeNotify, p.NM(), world.LocalNM(), false, nil, cmd))
+			if p.Feature([]uint{1}, 1) != before {
+				replaced++
+			}
+		}
 		// give hands the verdict of callback c for write w to the stack: from the test goroutine, or from
 		// inside the waiting invocation (and waits until that invocation has returned)
 		stuck := false
@@ -441,7 +477,7 @@ func TestApprovalMatrix(t *testing.T) {
 			}
 			msg := e.msgFor(w, v.c)
 			if msg == nil {
-				world.Fail(t, "C12/callback-wrong-message", "callback %d was not invoked with the message of %s%s", v.c, w.marker(), describe(ws))
+				world.Fail(t, "C12/callback-wrong-message", "callback %d was not invoked with the message of %s%s", v.c, w.marker(), describe(ws)+announced)
 			}
 			give(w, v.c, msg)
 		}
@@ -552,7 +588,7 @@ func TestApprovalMatrix(t *testing.T) {
 		for _, w := range ws {
 			for c := 0; c < nCb; c++ {
 				if n := perKey[fmt.Sprintf("%d/%s/%d", c, e.peers[w.peer].Ski, w.counter)]; n != 1 {
-					world.Fail(t, "C12/callback-count", "callback %d was invoked %d times for %s%s", c, n, w.marker(), describe(ws))
+					world.Fail(t, "C12/callback-count", "callback %d was invoked %d times for %s%s", c, n, w.marker(), describe(ws)+announced)
 				}
 			}
 			approvedEarly := isApproved(w)
@@ -592,14 +628,14 @@ func TestApprovalMatrix(t *testing.T) {
 					if er > 0 && !visible {
 						kind = "timed-out-although-approved"
 					}
-					world.Fail(t, fmt.Sprintf("C12/approved-write/%s/pending-%d", kind, nW), "every callback approved %s in time, but %s%s", w.marker(), what, describe(ws))
+					world.Fail(t, fmt.Sprintf("C12/approved-write/%s/pending-%d", kind, nW), "every callback approved %s in time, but %s%s", w.marker(), what, describe(ws)+announced)
 				}
 			} else {
 				if visible {
-					world.Fail(t, fmt.Sprintf("C12/unapproved-write-applied/pending-%d", nW), "%s was not approved by every callback in time, but %s%s", w.marker(), what, describe(ws))
+					world.Fail(t, fmt.Sprintf("C12/unapproved-write-applied/pending-%d", nW), "%s was not approved by every callback in time, but %s%s", w.marker(), what, describe(ws)+announced)
 				}
 				if er != 1 || s != 0 {
-					world.Fail(t, fmt.Sprintf("C12/unapproved-write-outcome/pending-%d", nW), "%s must get exactly one error result, but %s%s", w.marker(), what, describe(ws))
+					world.Fail(t, fmt.Sprintf("C12/unapproved-write-outcome/pending-%d", nW), "%s must get exactly one error result, but %s%s", w.marker(), what, describe(ws)+announced)
 				}
 			}
 		}
@@ -610,7 +646,7 @@ func TestApprovalMatrix(t *testing.T) {
 				l = append(l, fmt.Sprintf("%q", st))
 			}
 			sort.Strings(l)
-			world.Fail(t, fmt.Sprintf("C12/data-not-of-approved-writes/pending-%d", nW), "%d writes were approved by every callback in time; the items are now %q, with the approved writes applied in any order they would be one of %s%s", len(approved), final, strings.Join(l, " | "), describe(ws))
+			world.Fail(t, fmt.Sprintf("C12/data-not-of-approved-writes/pending-%d", nW), "%d writes were approved by every callback in time; the items are now %q, with the approved writes applied in any order they would be one of %s%s", len(approved), final, strings.Join(l, " | "), describe(ws)+announced)
 		}
 		sort.Strings(rows)
 		labels := []string{fmt.Sprintf("callbacks/%d", nCb), fmt.Sprintf("pending/%d", nW)}
@@ -625,9 +661,15 @@ func TestApprovalMatrix(t *testing.T) {
 				}
 			}
 		}
-		world.Record(world.Hash(nCb, rows, fmt.Sprint(perm), blocking), nt, labels...)
+		if reannounce[0] || reannounce[1] {
+			labels = append(labels, "matrix/writer-entity-announced-again-while-pending")
+			if replaced > 0 {
+				labels = append(labels, "matrix/writer-feature-objects-replaced-while-pending")
+			}
+		}
+		world.Record(world.Hash(nCb, rows, fmt.Sprint(perm), blocking, reannounce), nt, labels...)
 		if nt && world.WantSample() {
-			world.Sample(map[string]any{"callbacks": nCb, "verdicts_from_inside_callback": blocking, "writes": strings.Split(strings.TrimSpace(describe(ws)), "\n "), "delivery_order": fmt.Sprint(perm)})
+			world.Sample(map[string]any{"callbacks": nCb, "verdicts_from_inside_callback": blocking, "peers_announcing_their_entity_again_while_pending": reannounce, "writes": strings.Split(strings.TrimSpace(describe(ws)), "\n "), "delivery_order": fmt.Sprint(perm)})
 		}
 	}))
 }
